@@ -84,7 +84,7 @@ class Run:
     # ------------------------------------------------------------------
     def finish(self):
         wall = time.time() - self.t0
-        outdir = os.path.join(VERIF, "out", self.pid)
+        outdir = os.path.join(VERIF, "out", self.pid + ("-scratch" if os.environ.get("VERIF_REPO") not in (None, "", "/repo") else ""))
         os.makedirs(outdir, exist_ok=True)
         open_known = {k["key"]: k for k in self.known if k.get("status") == "open"}
         real = []
@@ -139,8 +139,11 @@ class Run:
             "wall_s": round(wall, 3),
             "violations": len(real),
         }
-        os.makedirs(os.path.join(VERIF, "evidence"), exist_ok=True)
-        with open(os.path.join(VERIF, "evidence", self.pid + ".json"), "w") as fh:
+        # runs against a scratch copy (VERIF_REPO set: seeded mutants) must not overwrite the evidence of /repo
+        alt = os.environ.get("VERIF_REPO") not in (None, "", "/repo")
+        evdir = os.path.join(VERIF, "out", "evidence-scratch") if alt else os.path.join(VERIF, "evidence")
+        os.makedirs(evdir, exist_ok=True)
+        with open(os.path.join(evdir, self.pid + ".json"), "w") as fh:
             json.dump(ev, fh, indent=1, default=str)
         for l in lines:
             print(l)
